@@ -746,6 +746,10 @@ def unpack_dataclass(spec: ValueSpec) -> Optional[Expression]:
             spec.builder.ensure_object_imported(spec.origin_type, cls_alias)
             return f"{cls_alias}.{method_name}({method_args})"
         else:
+            if not hasattr(spec.attrs, method_name):
+                # self-reference: the method is installed when the
+                # compilation in progress ends, so it is looked up by name
+                return f"{spec.cls_attrs_name}.{method_name}({method_args})"
             method_name_alias = f"{cls_alias}_{method_name}"
             spec.builder.ensure_object_imported(
                 getattr(spec.attrs, method_name),
